@@ -280,6 +280,25 @@ func vfC11Nondet(kind string, tree interface{}) string {
 		return "time:rate-limiter-periods"
 	}
 	reason := ""
+	if m, ok := tree.(map[string]interface{}); ok && kind == "HeaderToJSON" {
+		// two headers mapped to one JSON field: the winner depends on Go's map iteration order
+		seen := map[string]bool{}
+		if hm, ok := m["headerMap"].([]interface{}); ok {
+			for _, e := range hm {
+				j := ""
+				switch x := e.(type) {
+				case map[string]interface{}:
+					j = fmt.Sprint(x["json"])
+				case map[interface{}]interface{}:
+					j = fmt.Sprint(x["json"])
+				}
+				if seen[j] {
+					return "random:map-order"
+				}
+				seen[j] = true
+			}
+		}
+	}
 	var walk func(key string, v interface{})
 	walk = func(key string, v interface{}) {
 		if reason != "" {
@@ -387,6 +406,15 @@ func vfC11MutateFilterTree(g *vfG, kindName string, old map[string]interface{}) 
 		}
 		changed++
 	}
+	if changed == 0 && len(ks) > 0 {
+		k := ks[g.intn("mutate", "forced", 0, len(ks)-1)]
+		if v, ok := alt[k]; ok {
+			out[k] = v
+		} else {
+			delete(out, k)
+		}
+		changed++
+	}
 	return out, changed
 }
 
@@ -435,3 +463,20 @@ func (f *vfC11GateFilter) Handle(ctx *context.Context) string {
 	}
 	return ""
 }
+
+// ------------------------------------------------------------------------------ keys / reporting
+
+// vfC11PanicKey names a panic that only an update explains: kind of the filter, which generation
+// the request was on, the first /repo frame of the panic and the panic class.
+func vfC11PanicKey(kind, gen string, c vfC11CallResult) string {
+	return fmt.Sprintf("kind=%s gen=%s site=%s panic=%s", kind, gen, c.site, vfClass(c.text))
+}
+
+// vfC11Report reports a violation (discovery mode of the C13 helpers is honoured: with
+// VF_C13_DISCOVER=1 violations are collected and printed instead of failing the first case).
+func vfC11Report(vf *vfCollector, rt vfFataler, key, format string, args ...interface{}) bool {
+	return vfReport(vf, rt, key, fmt.Sprintf(format, args...))
+}
+
+// known finding (see harness/C11/proposed_known.jsonl)
+const vfC11KeyRateLimiterStolen = "kind=RateLimiter gen=old site=ratelimiter.(*RateLimiter).acquirePermission panic=invalid memory address or nil pointer dereference"
